@@ -5,8 +5,12 @@ Args namespaces associated before subclassing, 1-30 operations whose operands ar
 results) run on the real classes (impl/impl_c16.py, which dumps every live object after
 every operation) and judged inside Coq (model/RArgsTie.v) against the heap model
 ([step_op]: __new__/__init__ interning shortcuts, identities, interning tables) AND against
-the value-level rule ([spec_op], no heap).  Plus a stream of namespace class statements,
-namespace constructor calls and render class statements against the metaclass tables."""
+the value-level rule ([spec_op], no heap).  Namespace operands may be instances of SUBCLASSES
+of the associated namespace class (a namespace is written [c, fields] or [c, fields, tag],
+tag 0 = the class itself): values ignore the tag, the flow of instances does not (tagged
+encoding, see RArgsTie.v).  Every namespace instance and every set is observed with its hash
+and `==` against all the others.  Plus a stream of namespace class statements, namespace
+constructor calls and render class statements against the metaclass tables."""
 from __future__ import annotations
 
 import copy
@@ -39,11 +43,22 @@ def gen_forest(rng):
         kids[p] += 1
         kids.append(0)
     nsd = [None]
+    pns = rng.choice([0.45, 0.6, 0.7, 0.7, 0.85])
     for c in range(1, nc):
-        if rng.random() < 0.7:
+        if rng.random() < pns:
             nsd.append([rng.choice([0, 1, 2, 5]) for _ in range(rng.choice([1, 1, 2, 3]))])
         else:
             nsd.append(None)
+    # GAP classes (no Args of their own, inheriting some): A(args) <- B(none) [<- C(args)]
+    inner = [b for b in range(2, nc) if par[b] >= 1]
+    if inner and rng.random() < 0.6:
+        b = rng.choice(inner)
+        if nsd[par[b]] is None:
+            nsd[par[b]] = [rng.choice([0, 1, 2, 5]) for _ in range(rng.choice([1, 2]))]
+        nsd[b] = None
+        for c in range(b + 1, nc):
+            if par[c] == b and nsd[c] is None and rng.random() < 0.7:
+                nsd[c] = [rng.choice([0, 1, 2, 5])]
     return par, nsd
 
 
@@ -59,17 +74,48 @@ def anc(par, a, c):
     return a in chain(par, c)
 
 
-def gen_ns(rng, nsd, c):
+def gap_classes(par, nsd):
+    """classes without Args of their own that inherit some"""
+    return [c for c in range(1, len(par))
+            if nsd[c] is None and any(nsd[a] is not None for a in chain(par, c))]
+
+
+def ns_tag(n):
+    return n[2] if len(n) > 2 else 0
+
+
+def gen_tag(rng, maxtag):
+    """which class the instance is made from: 0 = the associated namespace class, > 0 = one
+    of its subclasses"""
+    if not maxtag or rng.random() < 0.55:
+        return 0
+    return rng.randint(1, maxtag)
+
+
+def with_tag(n, tag):
+    return [n[0], n[1], tag] if tag else [n[0], n[1]]
+
+
+def gen_ns(rng, nsd, c, maxtag=0):
     """a namespace value for class c (which has Args), biased to the default"""
     d = nsd[c]
     r = rng.random()
+    tag = gen_tag(rng, maxtag)
     if r < 0.4:
-        return [c, list(d)]
+        return with_tag([c, list(d)], tag)
     if r < 0.6:
         f = list(d)
         f[rng.randrange(len(f))] = rng.choice([0, 1, 7, -3])
-        return [c, f]
-    return [c, [rng.choice([0, 1, 2, 5, 7, -3]) for _ in d]]
+        return with_tag([c, f], tag)
+    return with_tag([c, [rng.choice([0, 1, 2, 5, 7, -3]) for _ in d]], tag)
+
+
+def gen_nd(rng, nsd, c, maxtag=0):
+    """a NON-default namespace value for class c"""
+    f = list(nsd[c])
+    j = rng.randrange(len(f))
+    f[j] = rng.choice([v for v in (0, 1, 7, -3, 9) if v != f[j]])
+    return with_tag([c, f], gen_tag(rng, maxtag))
 
 
 def predict(par, nsd, vals, o):
@@ -120,12 +166,21 @@ def gen_prog(rng, size):
     par, nsd = gen_forest(rng)
     nc = len(par)
     nk = rng.choice([1, 1, 2, 3])
+    maxtag = rng.choice([0, 1, 2, 3, 3])     # namespace-class subclasses in use
     with_ns = [c for c in range(nc) if nsd[c] is not None]
+    gaps = gap_classes(par, nsd)
     nops = rng.choice([rng.randint(1, 5), rng.randint(4, 14), rng.randint(4, 14), rng.randint(12, size)]) if size > 12 else rng.randint(1, size)
     ops, probes, vals = [], [], []
 
+    def gns(c):
+        return gen_ns(rng, nsd, c, maxtag)
+
     def related_cls(c, up=True):
         pool = chain(par, c) if up else [d for d in range(nc) if anc(par, c, d)]
+        # gap classes are interesting targets
+        gp = [g for g in pool if g in gaps]
+        if gp and rng.random() < 0.3:
+            return rng.choice(gp)
         return rng.choice(pool)
 
     def pick_var(target=None):
@@ -144,16 +199,95 @@ def gen_prog(rng, size):
             return None
         good = [c for c in with_ns if anc(par, c, target)]
         if good and rng.random() < 0.88:
-            return gen_ns(rng, nsd, rng.choice(good))
+            return gns(rng.choice(good))
         if not good and rng.random() < 0.7:
             return None
-        return gen_ns(rng, nsd, rng.choice(with_ns))
+        return gns(rng.choice(with_ns))
 
-    for t in range(nops):
+    def emit(o):
+        o["pres"] = rng.randrange(6)
+        ops.append(o)
+        vals.append(predict(par, nsd, vals, o))
+        # probes: the namespaces of the operation, the defaults of a few classes (as
+        # instances of the class itself or of a subclass), one random
+        pr = []
+        for n in o.get("nss", []):
+            pr.append(n)
+        if "a" in o:
+            pr.append(o["a"])
+        if "b" in o and "ns" in o["b"]:
+            pr.append(o["b"]["ns"])
+        for c in with_ns[:2]:
+            pr.append(with_tag([c, list(nsd[c])], gen_tag(rng, maxtag)))
+        if with_ns:
+            pr.append(gns(rng.choice(with_ns)))
+        probes.append(pr[:5])
+        return len(ops) - 1
+
+    def new(cls, init, nss, k=None):
+        return {"op": "new", "k": (rng.randrange(nk) if rng.random() < 0.3 else 0) if k is None else k,
+                "cls": cls, "init": init, "nss": nss}
+
+    def gap_scenario():
+        """a set for a GAP class whose inherited namespaces are non-default, made along one
+        of the routes, then used"""
+        g = rng.choice(gaps)
+        owners = [a for a in chain(par, g) if nsd[a] is not None]
+        desc = [d for d in range(nc) if d != g and anc(par, g, d)]
+        nd = [gen_nd(rng, nsd, a, maxtag) for a in owners if rng.random() < 0.8] or [gen_nd(rng, nsd, owners[0], maxtag)]
+        route = rng.choice(["new", "up", "up", "down", "init", "or", "to"])
+        if route == "up" and not desc:
+            route = "new"
+        if route == "new":
+            G = emit(new(g, None, nd))
+        elif route == "up":           # from a descendant, up to the gap
+            d = rng.choice(desc)
+            extra = [gns(c) for c in chain(par, d) if nsd[c] is not None and c not in owners and rng.random() < 0.5]
+            x = emit(new(d, None, nd + extra))
+            G = emit({"op": "conv", "x": x, "rc": g})
+        elif route in ("down", "init"):  # from an ancestor that owns a namespace
+            a = rng.choice(owners)
+            nda = [n for n in nd if anc(par, n[0], a)] or [gen_nd(rng, nsd, a, maxtag)]
+            x = emit(new(a, None, nda))
+            G = emit({"op": "conv", "x": x, "rc": g} if route == "down" else new(g, x, []))
+        elif route == "or":
+            x = emit(new(g, None, nd[1:]))
+            G = emit({"op": rng.choice(["or", "ror"]), "a": nd[0], "b": {"ra": x}})
+        else:
+            G = emit({"op": "to", "a": nd[0], "rc": g})
+        for _ in range(rng.choice([1, 1, 2, 3])):
+            q = rng.random()
+            if q < 0.2:
+                emit({"op": "conv", "x": G, "rc": rng.choice(chain(par, g))})
+            elif q < 0.35 and desc:
+                d = rng.choice(desc)
+                x = emit({"op": "conv", "x": G, "rc": d} if rng.random() < 0.5 else new(d, G, [n for n in [ns_for(d)] if n and rng.random() < 0.5]))
+                if rng.random() < 0.6:
+                    emit({"op": "conv", "x": x, "rc": g})     # and back up to the gap
+            elif q < 0.5:
+                emit({"op": "upd", "x": G, "nss": [gns(rng.choice(owners)) for _ in range(rng.choice([1, 1, 2]))]})
+            elif q < 0.62:
+                rc = rng.choice(owners)
+                j = rng.randrange(len(nsd[rc]))
+                emit({"op": "updf", "x": G, "rc": rc, "fields": [[j, rng.choice([nsd[rc][j], 7, -3])]]})
+            elif q < 0.8:
+                pool = owners + [d for d in desc if nsd[d] is not None]
+                emit({"op": rng.choice(["or", "ror"]), "a": gns(rng.choice(pool)), "b": {"ra": G}})
+            elif q < 0.9:
+                emit(new(g, G, []))                            # the set itself
+            else:
+                emit(new(g, G, [gns(rng.choice(owners))]))
+
+    while len(ops) < nops:
+        if gaps and rng.random() < (0.5 if not ops else 0.12):
+            gap_scenario()
+            continue
         r = rng.random()
         o = None
         if r < 0.38 or not any(x is not None for x in vals):
             cls = rng.randrange(nc) if rng.random() < 0.9 else 0
+            if gaps and rng.random() < 0.2:
+                cls = rng.choice(gaps)
             init = None
             if rng.random() < 0.6:
                 init = pick_var()
@@ -193,14 +327,14 @@ def gen_prog(rng, size):
                   else rng.randrange(nc))
             o = {"op": "conv", "x": x, "rc": rc}
         elif with_ns:
-            a = gen_ns(rng, nsd, rng.choice(with_ns))
+            a = gns(rng.choice(with_ns))
             q = rng.random()
             if q < 0.55:
                 if rng.random() < 0.5:
                     x = pick_var(a[0])
                     b = {"ra": x}
                 else:
-                    b = {"ns": ns_for(a[0]) if rng.random() < 0.7 else gen_ns(rng, nsd, a[0])}
+                    b = {"ns": ns_for(a[0]) if rng.random() < 0.7 else gns(a[0])}
                 o = {"op": rng.choice(["or", "ror"]), "a": a, "b": b}
             elif q < 0.8:
                 o = {"op": "pos", "a": a}
@@ -209,27 +343,12 @@ def gen_prog(rng, size):
                 o = {"op": "to", "a": a, "rc": rc}
         if o is None:
             o = {"op": "new", "k": 0, "cls": rng.randrange(nc), "init": None, "nss": []}
-        o["pres"] = rng.randrange(6)
-        ops.append(o)
-        vals.append(predict(par, nsd, vals, o))
-        # probes: the namespaces of the operation, the defaults of a few classes, one random
-        pr = []
-        for n in o.get("nss", []):
-            pr.append(n)
-        if "a" in o:
-            pr.append(o["a"])
-        if "b" in o and "ns" in o["b"]:
-            pr.append(o["b"]["ns"])
-        for c in with_ns[:2]:
-            pr.append([c, list(nsd[c])])
-        if with_ns:
-            pr.append(gen_ns(rng, nsd, rng.choice(with_ns)))
-        probes.append(pr[:5])
+        emit(o)
     return {"type": "prog", "par": par, "nsd": nsd, "nk": nk, "ops": ops, "probes": probes}
 
 
-def N(c, f):
-    return [c, f]
+def N(c, f, tag=0):
+    return [c, f, tag] if tag else [c, f]
 
 
 CORPUS = [
@@ -286,12 +405,84 @@ CORPUS = [
              {"op": "ror", "a": N(2, [2]), "b": {"ra": 0}},
              {"op": "conv", "x": 0, "rc": 2},
              {"op": "conv", "x": 1, "rc": 0}]},
+    # GAP classes: A(args) <- B(no Args of its own) <- C(args) <- D(none); sets for B / D with
+    # NON-default inherited namespaces along every route (convert both ways, |, update,
+    # init_render_args, to_render_args)
+    {"type": "prog", "par": [0, 0, 1, 2, 3], "nsd": [None, [1], None, [3], None], "nk": 1,
+     "ops": [{"op": "new", "k": 0, "cls": 3, "init": None, "nss": [N(1, [10]), N(3, [30])]},
+             {"op": "new", "k": 0, "cls": 4, "init": None, "nss": [N(1, [10]), N(3, [30])]},
+             {"op": "conv", "x": 0, "rc": 1},
+             {"op": "conv", "x": 1, "rc": 3},
+             {"op": "conv", "x": 0, "rc": 4},
+             {"op": "conv", "x": 0, "rc": 2},                                    # C -> gap B
+             {"op": "conv", "x": 1, "rc": 2},                                    # D -> gap B
+             {"op": "new", "k": 0, "cls": 2, "init": None, "nss": [N(1, [10])]},   # equal to both
+             {"op": "conv", "x": 5, "rc": 3},                                    # and down again
+             {"op": "new", "k": 0, "cls": 3, "init": None, "nss": []},
+             {"op": "conv", "x": 9, "rc": 2},                                    # default -> default
+             {"op": "new", "k": 0, "cls": 2, "init": None, "nss": []},
+             {"op": "conv", "x": 1, "rc": 0},                                    # BASE
+             {"op": "or", "a": N(1, [9]), "b": {"ra": 5}},
+             {"op": "ror", "a": N(3, [8]), "b": {"ra": 5}},                      # RenderArgs(B) | C.Args
+             {"op": "upd", "x": 5, "nss": [N(1, [1])]},                          # default values, not interned
+             {"op": "updf", "x": 5, "rc": 1, "fields": [[0, 7]]},
+             {"op": "updf", "x": 5, "rc": 2, "fields": []},                      # B has no namespace
+             {"op": "new", "k": 0, "cls": 2, "init": 5, "nss": []},              # init itself
+             {"op": "new", "k": 0, "cls": 4, "init": 5, "nss": []},              # gap -> gap
+             {"op": "new", "k": 0, "cls": 2, "init": 0, "nss": []},              # incompatible init
+             {"op": "to", "a": N(1, [10]), "rc": 2},
+             {"op": "to", "a": N(3, [30]), "rc": 2},                             # incompatible namespace
+             {"op": "conv", "x": 19, "rc": 2},
+             {"op": "conv", "x": 7, "rc": 4},
+             {"op": "or", "a": N(1, [10]), "b": {"ra": 11}}]},                   # A.Args | default set of B
+    # a gap directly under Renderable's child and a gap leaf, two RenderArgs types
+    {"type": "prog", "par": [0, 0, 1, 2, 2], "nsd": [None, [0, 5], None, None, [2]], "nk": 2,
+     "ops": [{"op": "new", "k": 0, "cls": 4, "init": None, "nss": [N(1, [7, 5])]},
+             {"op": "conv", "x": 0, "rc": 2},
+             {"op": "conv", "x": 0, "rc": 3},                                    # sibling: ValueError
+             {"op": "conv", "x": 1, "rc": 3},                                    # gap -> gap leaf
+             {"op": "new", "k": 1, "cls": 2, "init": 1, "nss": []},              # other type: new object
+             {"op": "conv", "x": 4, "rc": 3},                                    # convert() builds a plain RenderArgs
+             {"op": "conv", "x": 4, "rc": 1},
+             {"op": "new", "k": 1, "cls": 3, "init": None, "nss": [N(1, [7, 5], 1)]},
+             {"op": "conv", "x": 7, "rc": 2},
+             {"op": "upd", "x": 1, "nss": [N(1, [0, 5])]},
+             {"op": "new", "k": 0, "cls": 2, "init": None, "nss": []}]},
+    # namespace-class SUBCLASSES (tags): equal values through instances of different classes on
+    # every route; a field update keeps the class of the instance
+    {"type": "prog", "par": [0, 0, 1], "nsd": [None, [1], [2]], "nk": 1,
+     "probe": [N(1, [5]), N(1, [5], 1), N(1, [1], 2), N(2, [2], 3), N(1, [9], 3)],
+     "ops": [{"op": "new", "k": 0, "cls": 1, "init": None, "nss": [N(1, [5])]},
+             {"op": "new", "k": 0, "cls": 1, "init": None, "nss": [N(1, [5], 1)]},
+             {"op": "new", "k": 0, "cls": 2, "init": None, "nss": [N(1, [5])]},
+             {"op": "new", "k": 0, "cls": 2, "init": None, "nss": [N(1, [5], 2)]},
+             {"op": "pos", "a": N(1, [5])},
+             {"op": "pos", "a": N(1, [5], 1)},
+             {"op": "or", "a": N(1, [5]), "b": {"ns": N(2, [7])}},
+             {"op": "or", "a": N(1, [5], 1), "b": {"ns": N(2, [7], 3)}},
+             {"op": "new", "k": 0, "cls": 2, "init": None, "nss": []},
+             {"op": "upd", "x": 8, "nss": [N(1, [5], 1)]},
+             {"op": "upd", "x": 8, "nss": [N(1, [5])]},
+             {"op": "updf", "x": 3, "rc": 1, "fields": [[0, 9]]},
+             {"op": "updf", "x": 2, "rc": 1, "fields": [[0, 9]]},
+             {"op": "conv", "x": 1, "rc": 2},
+             {"op": "conv", "x": 0, "rc": 2},
+             {"op": "conv", "x": 3, "rc": 1},
+             {"op": "conv", "x": 2, "rc": 1},
+             {"op": "new", "k": 0, "cls": 2, "init": None, "nss": [N(1, [1], 1)]},   # == the shared default
+             {"op": "new", "k": 0, "cls": 2, "init": None, "nss": [N(1, [1], 1), N(2, [2], 2)]},
+             {"op": "ror", "a": N(1, [5], 1), "b": {"ns": N(1, [6], 2)}},
+             {"op": "or", "a": N(1, [5], 1), "b": {"ns": N(1, [6], 2)}},
+             {"op": "new", "k": 0, "cls": 2, "init": 17, "nss": []},
+             {"op": "updf", "x": 17, "rc": 1, "fields": []},
+             {"op": "or", "a": N(2, [2], 3), "b": {"ra": 1}},
+             {"op": "to", "a": N(1, [1], 3), "rc": 2}]},
 ]
 for _c in CORPUS:
     for _o in _c["ops"]:
         _o.setdefault("pres", 0)
-    _c["probes"] = [[N(c, list(f)) for c, f in enumerate(_c["nsd"]) if f is not None][:3]
-                    for _ in _c["ops"]]
+    _pr = _c.pop("probe", None) or [N(c, list(f)) for c, f in enumerate(_c["nsd"]) if f is not None][:3]
+    _c["probes"] = [list(_pr) for _ in _c["ops"]]
 
 
 def gen_stmt(rng):
@@ -363,7 +554,16 @@ def zl(l):
 
 
 def ns_term(n):
-    return f"({n[0]}, {zl(n[1])})"
+    """the tagged encoding: (render class, tag :: fields)"""
+    return f"({n[0]}, {zl([ns_tag(n)] + list(n[1]))})"
+
+
+def onso_term(e):
+    return f"{{| on_cls := {e[0]}; on_f := {zl([e[2]] + list(e[1]))}; on_hash := {core.z(e[3])} |}}"
+
+
+def bmat(rows):
+    return core.coq_list(rows, lambda r: core.coq_list(r, b_))
 
 
 def op_term(o):
@@ -374,7 +574,7 @@ def op_term(o):
     if k == "upd":
         return f"OUpdateNs {o['x']} {core.coq_list(o['nss'], ns_term)}"
     if k == "updf":
-        fl = core.coq_list(o["fields"], lambda p: f"({p[0]}, {core.z(p[1])})")
+        fl = core.coq_list(o["fields"], lambda p: f"({p[0] + 1}, {core.z(p[1])})")   # field j is S j
         return f"OUpdateFields {o['x']} {o['rc']} {fl}"
     if k == "conv":
         return f"OConvert {o['x']} {o['rc']}"
@@ -396,15 +596,18 @@ def obs_term(b):
         lambda d: f"{{| ob_kind := {d[0]}; ob_cls := {d[1]}; ob_ns := {core.coq_list(d[2], ns_term)}; ob_hash := {core.z(d[3])} |}}")
     itn = core.coq_list(b["itn"], lambda t: f"({t[0]}, {t[1]}, {t[2]})")
     return (f"{{| b_res := {core.z(b['res'])}; b_dump := {dump}; b_eq := {core.coq_list(b['eq'], b_)}; "
-            f"b_in := {core.coq_list(b['in'], b_)}; b_itn := {itn} |}}")
+            f"b_in := {core.coq_list(b['in'], b_)}; b_itn := {itn}; "
+            f"b_nsnew := {core.coq_list(b['nsnew'], onso_term)}; b_nseq := {bmat(b['nseq'])} |}}")
 
 
 def prog_term(c, r):
-    nsd = core.coq_list(c["nsd"], lambda f: "None" if f is None else f"(Some {zl(f)})")
+    nsd = core.coq_list(c["nsd"], lambda f: "None" if f is None else f"(Some {zl([0] + list(f))})")
     probes = core.coq_list(c["probes"], lambda pr: core.coq_list(pr, ns_term))
     return (f"{{| t_par := {core.coq_list(c['par'])}; t_nsd := {nsd}; t_nk := {c['nk']}; "
             f"t_ops := {core.coq_list(c['ops'], op_term)}; t_probes := {probes}; "
-            f"t_obs := {core.coq_list(r['obs'], obs_term)} |}}")
+            f"t_obs := {core.coq_list(r['obs'], obs_term)}; "
+            f"t_fin_ns := {core.coq_list(r['fin']['ns'], onso_term)}; t_fin_nseq := {bmat(r['fin']['nseq'])}; "
+            f"t_fin_eq := {bmat(r['fin']['eq'])} |}}")
 
 
 def stmt_descriptor(c):
@@ -470,6 +673,11 @@ def uses(o):
     return vs
 
 
+def op_nss(o):
+    """the namespace operands of an operation (the lists themselves)"""
+    return o.get("nss", []) + ([o["a"]] if "a" in o else []) + ([o["b"]["ns"]] if "b" in o and "ns" in o["b"] else [])
+
+
 def drop_op(case, t):
     """the program without operation t, or None when a later operation uses its result"""
     if any(t in uses(o) for o in case["ops"][t + 1:]):
@@ -521,6 +729,13 @@ def shrink(case, diag=None, rounds=25):
             c["par"].pop()
             c["nsd"].pop()
             cands.append(c)
+        # namespace subclasses: instances of the associated class itself instead (all, then one by one)
+        tagged = [(t, i) for t, o in enumerate(cur["ops"]) for i, n in enumerate(op_nss(o)) if ns_tag(n)]
+        for sel in ([tagged] if len(tagged) > 1 else []) + [[x] for x in tagged]:
+            c = copy.deepcopy(cur)
+            for t, i in sel:
+                del op_nss(c["ops"][t])[i][2:]
+            cands.append(c)
         if not cands:
             break
         codes, errors, _, _ = evaluate(cands, tag="c16s")
@@ -535,22 +750,29 @@ def describe(case):
     if case["type"] != "prog":
         return str({k: v for k, v in case.items() if k not in ("extra_kind", "bad_kind")})
 
+    def ns(n):
+        # C1.Args(5) or, for an instance of the t-th subclass of C1.Args, C1.Args'1(5)
+        return f"C{n[0]}.Args{chr(39) + str(ns_tag(n)) if ns_tag(n) else ''}({', '.join(map(str, n[1]))})"
+
+    def nsl(l):
+        return ", ".join(map(ns, l))
+
     def one(o):
         k = o["op"]
         if k == "new":
-            return f"K{o['k']}(C{o['cls']}, {'-' if o['init'] is None else 'r%d' % o['init']}, {o['nss']})"
+            return f"K{o['k']}(C{o['cls']}, {'-' if o['init'] is None else 'r%d' % o['init']}, [{nsl(o['nss'])}])"
         if k == "upd":
-            return f"r{o['x']}.update({o['nss']})"
+            return f"r{o['x']}.update({nsl(o['nss'])})"
         if k == "updf":
             return f"r{o['x']}.update(C{o['rc']}, {o['fields']})"
         if k == "conv":
             return f"r{o['x']}.convert(C{o['rc']})"
         if k in ("or", "ror"):
-            b = o["b"]["ns"] if "ns" in o["b"] else "r%d" % o["b"]["ra"]
-            return f"{o['a']} | {b}" if k == "or" else f"{b} |' {o['a']}"
+            b = ns(o["b"]["ns"]) if "ns" in o["b"] else "r%d" % o["b"]["ra"]
+            return f"{ns(o['a'])} | {b}" if k == "or" else f"{b} |' {ns(o['a'])}"
         if k == "pos":
-            return f"+{o['a']}"
-        return f"{o['a']}.to_render_args(C{o['rc']})"
+            return f"+{ns(o['a'])}"
+        return f"{ns(o['a'])}.to_render_args(C{o['rc']})"
     return f"parents={case['par']} args_defaults={case['nsd']} kinds={case['nk']} ops=[{'; '.join(map(one, case['ops']))}]"
 
 
@@ -579,6 +801,13 @@ def run(ctx):
     hist = {"case_types": {}, "classes": {}, "ops_len": {}, "op_kinds": {}, "op_outcomes": {},
             "results_aliasing_an_existing_object": 0, "results_new_object": 0,
             "empty_namespace_constructor_calls": 0, "objects_live_at_end": {},
+            "programs_with_gap_classes": 0, "ops_targeting_a_gap_class": {},
+            "ok_results_for_a_gap_class_with_nondefault_inherited_namespace": 0,
+            "convert_up_to_gap_class_from_set_with_nondefault_inherited_namespace": 0,
+            "namespace_operands_by_class_tag": {}, "namespace_instances_seen": 0,
+            "equal_namespace_instance_pairs_of_different_classes": 0,
+            "equal_set_pairs_holding_instances_of_different_classes": 0,
+            "programs_with_equal_objects_built_from_different_namespace_classes": 0,
             "stmt_outcomes": {}, "ctor_outcomes": {}, "rend_outcomes": {}}
     distinct = set()
 
@@ -590,11 +819,38 @@ def run(ctx):
             bump(hist["classes"], len(c["par"]))
             bump(hist["ops_len"], min(len(c["ops"]) // 5 * 5, 30))
             seen, alias = 0, 0
+            gaps = gap_classes(c["par"], c["nsd"])
+            hist["programs_with_gap_classes"] += bool(gaps)
+
+            def nondefault_inherited(entry, g):
+                """the dumped set holds a non-default namespace for an ancestor of class g"""
+                return any(anc(c["par"], n[0], g) and list(n[1]) != list(c["nsd"][n[0]]) for n in entry[2])
             for o, b in zip(c["ops"], r["obs"]):
                 bump(hist["op_kinds"], o["op"])
                 bump(hist["op_outcomes"], "ok" if b["res"] >= 0 else f"err{-1 - b['res']}")
                 if o["op"] == "new" and not o["nss"]:
                     hist["empty_namespace_constructor_calls"] += 1
+                for n in op_nss(o):
+                    bump(hist["namespace_operands_by_class_tag"], ns_tag(n))
+                if o.get("cls", o.get("rc")) in gaps:
+                    bump(hist["ops_targeting_a_gap_class"], o["op"])
+                if b["res"] >= 0 and b["dump"][b["res"]][1] in gaps and nondefault_inherited(b["dump"][b["res"]], b["dump"][b["res"]][1]):
+                    hist["ok_results_for_a_gap_class_with_nondefault_inherited_namespace"] += 1
+                if o["op"] == "conv" and o["rc"] in gaps and b["res"] >= 0 and o["x"] < len(r["obs"]) and r["obs"][o["x"]]["res"] >= 0:
+                    src = b["dump"][r["obs"][o["x"]]["res"]]
+                    if src[1] != o["rc"] and anc(c["par"], o["rc"], src[1]) and nondefault_inherited(src, o["rc"]):
+                        hist["convert_up_to_gap_class_from_set_with_nondefault_inherited_namespace"] += 1
+            fin = r["fin"]
+            hist["namespace_instances_seen"] += len(fin["ns"])
+            mixed = sum(1 for i, row in enumerate(fin["nseq"]) for j, e in enumerate(row)
+                        if i < j and e and fin["ns"][i][2] != fin["ns"][j][2])
+            last = r["obs"][-1]["dump"] if r["obs"] else []
+            mixed_sets = sum(1 for i, row in enumerate(fin["eq"]) for j, e in enumerate(row)
+                             if i < j and e and [n[2] for n in last[i][2]] != [n[2] for n in last[j][2]])
+            hist["equal_namespace_instance_pairs_of_different_classes"] += mixed
+            hist["equal_set_pairs_holding_instances_of_different_classes"] += mixed_sets
+            hist["programs_with_equal_objects_built_from_different_namespace_classes"] += bool(mixed or mixed_sets)
+            for o, b in zip(c["ops"], r["obs"]):
                 if b["res"] >= 0:
                     if b["res"] < seen:
                         alias += 1
@@ -633,14 +889,21 @@ def run(ctx):
     progs = [c for c in cases if c["type"] == "prog"]
     return {
         "corr_name": "RArgs.step_op (heap model) and RArgs.spec_op (value-level rule) == real RenderArgs/ArgsNamespace "
-                     "programs on generated class forests; RArgs.ns_meta / ns_ctor / renderable_meta == real class statements",
+                     "programs on generated class forests with namespace-class subclasses; == is the structural equivalence and "
+                     "equal objects hash equal on every pair of live sets / namespace instances; "
+                     "RArgs.ns_meta / ns_ctor / renderable_meta == real class statements",
         "evaluations": len(cases),
         "distinct_nontrivial": len(distinct),
         "rule": "corpus + generated programs: forest of 2-8 render classes (depth <= 4, branching <= 3, chains / bushy / random), "
-                "70% of classes with an Args namespace of 1-3 int fields, 1-3 RenderArgs types, 1-30 operations (constructor, "
-                "update in both forms, convert, | and __ror__ with namespace and RenderArgs operands, +, to_render_args) whose "
-                "operands are earlier results (80% compatible), constructor calls biased to NO namespaces and namespace values "
-                "biased to defaults; every live object dumped after every operation.  Non-trivial program: >= 3 classes, >= 4 "
+                "45-85% of classes with an Args namespace of 1-3 int fields and, in 60% of the forests with an inner class, a forced "
+                "GAP pattern A(args) <- B(no Args of its own) [<- C(args)]; 0-3 SUBCLASSES of every namespace class (child, "
+                "grandchild, second child) whose instances are used as operands/probes 45% of the time; 1-3 RenderArgs types, 1-30 "
+                "operations (constructor, update in both forms, convert, | and __ror__ with namespace and RenderArgs operands, +, "
+                "to_render_args) whose operands are earlier results (80% compatible), constructor calls biased to NO namespaces and "
+                "namespace values biased to defaults; gap scenarios (a set for a gap class with NON-default inherited namespaces made "
+                "by the constructor / convert up / convert down / init_render_args / | / to_render_args, then converted, updated, "
+                "combined, used as init); every live set dumped after every operation, every namespace instance when first seen "
+                "and at the end, == of every pair.  Non-trivial program: >= 3 classes, >= 4 "
                 "operations, at least one result that IS an earlier object (interning shortcut taken) and one operation using "
                 "an earlier result; distinct by program hash.  Plus generated namespace class statements, namespace "
                 "constructor calls and render class statements (counted in evaluations, not in distinct_nontrivial).",
@@ -654,11 +917,16 @@ def run(ctx):
             "render classes form a single-inheritance forest under Renderable (issubclass = ancestor-or-self); Renderable itself has no Args",
             "an Args namespace class is associated with a render class before that class is subclassed or used (so _ALL_DEFAULT_ARGS is fixed), as the documentation requires",
             "namespace instances are immutable values (their __setattr__/__delattr__ raise); namespace identity is not modelled, field values are integers",
+            "a namespace value is (associated render class, field values) whatever subclass of the associated namespace class it is an instance of "
+            "(__eq__/__hash__/__contains__/compatibility read type(ns)._RENDER_CLS and the fields only); the class of an instance is carried "
+            "like one more field that update() cannot name (tagged encoding, RArgsTie.v): a set holds the instance it was given and "
+            "ArgsNamespace.update builds type(self); namespace subclasses are single-inheritance chains below the associated class that add methods only",
             "RenderArgs objects are only created through the class call (type.__call__ = __new__ then __init__), never by calling __new__/__init__ directly",
             "hash is modelled as the tuple handed to hash(): equal tuples hash equal in CPython",
         ],
         "trusted": [
             "impl driver: public API only (constructors, update, convert, |, +, to_render_args, iteration, item access, ==, hash, in) "
-            "except the read of K._interned used for the model-only comparison of the interning tables",
+            "except the read of K._interned used for the model-only comparison of the interning tables; "
+            "namespace subclasses are created through the namespace metaclass (as a class statement does)",
         ],
     }
